@@ -558,10 +558,67 @@ def rule_distor(facts):
     return r
 
 
+JOIN_NODES = ("LogicalArbitraryJoin", "LogicalComparisonJoin", "LogicalMagicJoin")
+
+
+def rule_joincond(facts):
+    """An optimizer rule that re-builds a join node and keeps the node's own join type (a value copied from an existing
+    Logical*Join, so possibly LEFT/RIGHT/FULL/SEMI/…) has to keep the node's own condition as well. Changing the condition of such a
+    node - e.g. AND-ing a filter that sat above the join into the ON clause - is an equivalence only for INNER joins, so it needs a
+    dominating `join_type == Inner` test (or the constant JoinType::Inner in the new node)."""
+    from .mir import controlling_calls, disc_switches
+    r = RuleResult("C02-JOINCOND", "a join node re-built with the join type of an existing node keeps that node's condition, unless the join type was tested to be "
+                   "Inner", floor=1)
+    nsites = 0
+    for rec in facts.all_fns(["glaredb_core"]):
+        if "::optimizer::" not in rec["id"] or "::tests::" in rec["id"]:
+            continue
+        if not any(j in str(rec["bbs"]) for j in JOIN_NODES):
+            continue
+        fn = Fn(rec)
+        for b, i, pl, rv, ln in fn.assigns():
+            if not (rv[0] == "agg" and rv[1][0] == "adt" and rv[1][1].rsplit("::", 1)[-1] in JOIN_NODES):
+                continue
+            flds = rv[1][3]
+            if "join_type" not in flds:
+                continue
+            nsites += 1
+            jt = fn.origin(rv[2][flds.index("join_type")], at=b, through_calls=("::clone",))
+            jt_proj = [p for p in (jt[2] if len(jt) > 2 and isinstance(jt[2], list) else []) if isinstance(p, list) and p[0] == "f"]
+            copied = bool(jt_proj) and jt_proj[-1][1] == "join_type" and jt_proj[-1][2].rsplit("::", 1)[-1] in JOIN_NODES
+            if not copied:
+                continue          # constant or freshly decided join type: the rule that builds it owns the condition
+            r.functions.add(fn.id)
+            r.call_sites += 1
+            cf = "condition" if "condition" in flds else "conditions" if "conditions" in flds else None
+            same = False
+            if cf:
+                co = fn.origin(rv[2][flds.index(cf)], at=b, through_calls=("::clone",))
+                cproj = [p for p in (co[2] if len(co) > 2 and isinstance(co[2], list) else []) if isinstance(p, list) and p[0] == "f"]
+                same = co[0] == jt[0] and co[1] == jt[1] and bool(cproj) and cproj[-1][1] == cf and cproj[:-1] == jt_proj[:-1]
+            guarded = False
+            if not same:
+                for c, truth in controlling_calls(fn, b):
+                    if (c.name.endswith("::eq") or c.name.endswith("::ne")) and any("JoinType" in a for a in (c.gargs or []) + [c.callee.get("self", "")]):
+                        consts = [a for a in c.args if a[0] == "k" or (fn.origin(a, at=c.bb)[0] == "const")]
+                        txt = str([fn.origin(a, at=c.bb) for a in c.args])
+                        if "Inner" in txt and ((c.name.endswith("::eq") and truth) or (c.name.endswith("::ne") and not truth)):
+                            guarded = True
+            ok = same or guarded
+            r.inst({"fn": fn.id, "line": ln, "node": rv[1][1].rsplit("::", 1)[-1], "keeps_condition": same, "inner_test": guarded}, ok)
+            if not ok:
+                r.violate(fn.id, f"join-condition-changed:{rv[1][1].rsplit('::', 1)[-1]}", f"the join node built at line {ln} keeps the join type of an existing node but gets a different "
+                          "condition, without a test that the join is INNER: merging a filter into the ON clause of an outer/semi join changes which rows are "
+                          "NULL-extended or kept", rec["file"], ln)
+    if nsites < 3:
+        r.missing_anchor(f"join node constructions in the optimizer (found {nsites}, expected at least 3)")
+    return r
+
+
 def run(ctx):
     facts = ctx["facts"]
     res = [rule_vol_fold(facts), rule_vol_cse(facts), rule_vol_exists(facts), rule_limit(facts), rule_limitpd(facts), rule_outer(facts),
-           rule_gsets(facts), rule_orall(facts), rule_distor(facts)]
+           rule_gsets(facts), rule_orall(facts), rule_distor(facts), rule_joincond(facts)]
     # shared clauses
     from . import c13
     res.append(c13.rule_flat(facts))
